@@ -161,6 +161,18 @@ pub fn check(rep: &Report) {
                 Err(e) if e.starts_with("no result") => rep.count("pair_program_did_not_finish(inconclusive)", 1),
                 Err(e) => rep.violation(Violation { signature: format!("C13:run-failed:{}", e.split(|c: char| !c.is_alphanumeric()).find(|s| !s.is_empty()).unwrap_or("")), what: format!("the comparison program failed: {}", e), witness: json!({"program": src, "workers": workers}) }),
             }
+        } else if j < n_pairs + n_refs && j % 8 == 0 {
+            // nil against nil, each reached without a bare binder ever seeing a union-typed nil (the recorded type hole): a nil
+            // literal, a nilary function returning nil, a module member, the result of a process
+            let exprs = ["[]", "mknil", "%lib.n", "!pn", "[x: []] .x"];
+            let (ea, eb) = (exprs[rng.below(exprs.len())], exprs[rng.below(exprs.len())]);
+            let src = format!("mknil = #{{ [] }},\npn = @#{{ [] }},\nva = {},\nvb = {},\n[{{ va =&vb }}, {{ vb =&va }}, {{ T[va] =T[&vb] }}, {{ [va, vb] =[s, s] }}, {{ va =[] }}, {{ T[va, 1] =T[&vb, 2] }}]", ea, eb);
+            let mut modules = HashMap::new(); modules.insert(vec!["lib".to_string()], "[n: []]".to_string());
+            let expect = [true, true, true, true, true, false];
+            match crate::pool::catch(|| run(&src, &modules, &b, 1 + rng.below(2), j as u64)) {
+                Ok(Ok(CV::Tuple(_, f))) if f.len() == expect.len() => { rep.count("nil_against_nil_programs", 1); for (k, ((_, v), e)) in f.iter().zip(expect.iter()).enumerate() { rep.eval(1); if !v.is_nil() != *e { rep.violation(Violation { signature: format!("C13:nil-equality:{}", k), what: format!("nil compared with nil: comparison #{} gave {} where {} is expected", k, !v.is_nil(), e), witness: json!({"program": src}) }); break; } } }
+                Ok(Err(e)) if e.starts_with("no result") => rep.count("nil_program_did_not_finish(inconclusive)", 1),
+                other => rep.violation(Violation { signature: "C13:nil-program-failed".into(), what: format!("{:?}", other.map(|r| r.map(|v| v.show()))), witness: json!({"program": src}) }) }
         } else if j < n_pairs + n_refs {
             // ref uniqueness across processes and workers: n children mint m refs each and return them; the root mints too
             let n = 2 + rng.below(4); let m = 1 + rng.below(3);
@@ -199,4 +211,4 @@ pub fn check(rep: &Report) {
 
 pub const RULE: &str = "for every pair of abstract values (equal, or differing in one leaf / label / name / arity) built along two construction paths out of {literal, computed, spread, union-typed construction site, generic function, imported from a module, awaited from a process, received as a message, returned by a closure}: the VM's verdict through pin, reversed pin, pin inside a tuple, repeated binder (flat and nested) and literal pattern == structural equality of the abstract values; refs minted by up to 5 processes on 1-4 workers are equal exactly to themselves; functions compare by definition and captures, processes by identity";
 pub const ASSUME: &[&str] = &["two textually identical but separate function definitions are not compared (the property leaves their identity open)"];
-pub const SITUATIONS: &[&str] = &["equal_pairs", "unequal_pairs", "form=pin", "form=repeated-binder", "form=literal-pattern", "form=received-message", "path_pair=literal~union-site", "path_pair=generic-function~spread", "path_pair=awaited~imported", "ref_programs", "ref_workers=4", "refs_of_different_mintings_compared", "function_and_process_programs"];
+pub const SITUATIONS: &[&str] = &["equal_pairs", "unequal_pairs", "form=pin", "form=repeated-binder", "form=literal-pattern", "form=received-message", "path_pair=literal~union-site", "path_pair=generic-function~spread", "path_pair=awaited~imported", "ref_programs", "nil_against_nil_programs", "ref_workers=4", "refs_of_different_mintings_compared", "function_and_process_programs"];
